@@ -11,16 +11,16 @@ from spec.graphmodel import (is_masked, is_base_level, GRAPH_VOCAB, NS_DEFS, gho
 ROUTER_H = "include/fastscapelib/flow/flow_router.hpp"
 
 DEFS = r"""
-#define receivers(i, j) m_receivers[FSL_IDX2(i, j, gsize, REC_W)]
-#define dist2receivers(i, j) m_receivers_distance[FSL_IDX2(i, j, gsize, REC_W)]
-#define receivers_weight(i, j) m_receivers_weight[FSL_IDX2(i, j, gsize, REC_W)]
+#define receivers(i, j) m_receivers[FSL_IDX1(i, gsize)].c[FSL_IDX1(j, REC_W)]
+#define dist2receivers(i, j) m_receivers_distance[FSL_IDX1(i, gsize)].c[FSL_IDX1(j, REC_W)]
+#define receivers_weight(i, j) m_receivers_weight[FSL_IDX1(i, gsize)].c[FSL_IDX1(j, REC_W)]
 #define receivers_count(i) m_receivers_count[FSL_IDX1(i, gsize)]
-#define donors(i, j) m_donors[FSL_IDX2(i, j, gsize, DON_W)]
+#define donors(i, j) m_donors[FSL_IDX1(i, gsize)].c[FSL_IDX1(j, DON_W)]
 #define donors_count(i) m_donors_count[FSL_IDX1(i, gsize)]
 """
 
-PARAMS = ("size_t gsize, size_t *m_receivers, size_t *m_receivers_count, double *m_receivers_distance, double *m_receivers_weight, "
-          "size_t *m_donors, size_t *m_donors_count, const _Bool *m_mask, _Bool m_mask_initialized, const _Bool *base_level, "
+PARAMS = ("size_t gsize, struct srow *m_receivers, size_t *m_receivers_count, struct drow *m_receivers_distance, struct drow *m_receivers_weight, "
+          "struct donrow *m_donors, size_t *m_donors_count, const _Bool *m_mask, _Bool m_mask_initialized, const _Bool *base_level, "
           "const uint8_t *nodes_status, const double *elevation, double op_slope_exp")
 ARGS = ("gsize, m_receivers, m_receivers_count, m_receivers_distance, m_receivers_weight, m_donors, m_donors_count, m_mask, "
         "m_mask_initialized, base_level, nodes_status, elevation, op_slope_exp")
@@ -49,27 +49,29 @@ STEP_LOCALS = ("/* locals of the enclosing function, dead at the loop head */\n"
 
 FRESH = r"""
 __CPROVER_requires(0 < gsize && gsize <= %(NMAX)s && gsize == GSIZE)
-__CPROVER_requires(__CPROVER_is_fresh(m_receivers, gsize * REC_BYTES))
-__CPROVER_requires(__CPROVER_is_fresh(m_receivers_count, gsize * 8))
-__CPROVER_requires(__CPROVER_is_fresh(m_receivers_distance, gsize * REC_BYTES))
-__CPROVER_requires(__CPROVER_is_fresh(m_receivers_weight, gsize * REC_BYTES))
-__CPROVER_requires(__CPROVER_is_fresh(m_donors, gsize * DON_BYTES))
-__CPROVER_requires(__CPROVER_is_fresh(m_donors_count, gsize * 8))
-__CPROVER_requires(__CPROVER_is_fresh(m_mask, gsize))
-__CPROVER_requires(__CPROVER_is_fresh(base_level, gsize))
-__CPROVER_requires(__CPROVER_is_fresh(nodes_status, gsize))
-__CPROVER_requires(__CPROVER_is_fresh(elevation, gsize * 8))
+/* rows of the 2-D tables are structs so that `n * sizeof(row)` (plain n) gives typed fresh objects (see router.py) */
+__CPROVER_requires(__CPROVER_is_fresh(m_receivers, gsize * sizeof(struct srow)))
+__CPROVER_requires(__CPROVER_is_fresh(m_receivers_count, gsize * sizeof(size_t)))
+__CPROVER_requires(__CPROVER_is_fresh(m_receivers_distance, gsize * sizeof(struct drow)))
+__CPROVER_requires(__CPROVER_is_fresh(m_receivers_weight, gsize * sizeof(struct drow)))
+__CPROVER_requires(__CPROVER_is_fresh(m_donors, gsize * sizeof(struct donrow)))
+__CPROVER_requires(__CPROVER_is_fresh(m_donors_count, gsize * sizeof(size_t)))
+__CPROVER_requires(__CPROVER_is_fresh(m_mask, gsize * sizeof(_Bool)))
+__CPROVER_requires(__CPROVER_is_fresh(base_level, gsize * sizeof(_Bool)))
+__CPROVER_requires(__CPROVER_is_fresh(nodes_status, gsize * sizeof(uint8_t)))
+__CPROVER_requires(__CPROVER_is_fresh(elevation, gsize * sizeof(double)))
 __CPROVER_requires(op_slope_exp >= 0 && op_slope_exp < INFINITY)
 """ % dict(NMAX=NMAX_NODES)
 
 PRED = NS_DEFS + r"""
 #define MASKED(x) (m_mask_initialized && m_mask[(x)])
 #define TERMINAL(x) (MASKED(x) || base_level[(x)])
-#define REC(x, s) m_receivers[(x) * REC_W + (s)]
-#define DIST(x, s) m_receivers_distance[(x) * REC_W + (s)]
-#define WGT(x, s) m_receivers_weight[(x) * REC_W + (s)]
+struct srow { size_t c[REC_W]; }; struct drow { double c[REC_W]; }; struct donrow { size_t c[DON_W]; };
+#define REC(x, s) m_receivers[(x)].c[(s)]
+#define DIST(x, s) m_receivers_distance[(x)].c[(s)]
+#define WGT(x, s) m_receivers_weight[(x)].c[(s)]
 #define RCNT(x) m_receivers_count[(x)]
-#define DON(r, s) m_donors[(r) * DON_W + (s)]
+#define DON(r, s) m_donors[(r)].c[(s)]
 #define CNT(r) m_donors_count[(r)]
 #define SAME_D(x, y) ((x) == (y) || (isnan(x) && isnan(y)))  /* "unchanged" for a double cell */
 size_t GR, GS;      /* ghost donor row / slot */
@@ -225,7 +227,7 @@ size_t nondet_size_t(void); _Bool nondet_bool(void); double nondet_double(void);
 void h_%(fn)s(void)
 {
     size_t gsize = nondet_size_t();
-    size_t *m_receivers, *m_receivers_count, *m_donors, *m_donors_count; double *m_receivers_distance, *m_receivers_weight;
+    struct srow *m_receivers; struct donrow *m_donors; size_t *m_receivers_count, *m_donors_count; struct drow *m_receivers_distance, *m_receivers_weight;
     const _Bool *m_mask, *base_level; const uint8_t *nodes_status; const double *elevation;
     _Bool m_mask_initialized = nondet_bool(); double op_slope_exp = nondet_double();
     GSIZE = gsize; G = nondet_size_t(); GN_cnt = nondet_size_t(); GR = nondet_size_t(); GS = nondet_size_t();
